@@ -1,4 +1,5 @@
 import AvoVerif.Props.C01
+import AvoVerif.Props.C01Tables
 #print axioms Avo.Machine.rename_preserves
 #print axioms Avo.Machine.step_rel
 #print axioms Avo.AllocCheck.checkPostFix_sound
@@ -6,3 +7,11 @@ import AvoVerif.Props.C01
 #print axioms Avo.AllocCheck.accepted_preserves
 #print axioms Avo.AllocCheck.entry_rel
 #print axioms Avo.AllocCheck.mem_flatMap_locs
+#print axioms Avo.Alloc.updateEdges_spec
+#print axioms Avo.Alloc.allocLoop_valid
+#print axioms Avo.Alloc.allocKind_valid
+#print axioms Avo.Alloc.allocate_valid
+#print axioms Avo.Alloc.edges_imply_valid
+#print axioms Avo.Alloc.avo_alloc_valid
+#print axioms Avo.Alloc.candidates_physical
+#print axioms Avo.Alloc.avo_alloc_valid_installed
